@@ -238,7 +238,7 @@ theorem whenMatches_ok_test {look : Name → Val} {c : Choice} {e : Option Expr}
   unfold whenMatches at h
   cases hc : c.hasTest <;> cases e <;> simp_all
 
-theorem SimG.define {d : DSt} {st : St} (h : SimG d st) (name : Name) (params : List Name)
+theorem SimG.define {d : DSt} {st : St} (h : SimG d st) (name : Name) (params : List Param)
     (ds : List Dir) (t : Target) (hw : DirsWF ds t) :
     SimG (d.define name ⟨params, ds, t⟩)
       (st.define name ⟨params, (attach ds (targetBody t)).1, (attach ds (targetBody t)).2⟩) := by
